@@ -159,21 +159,36 @@ pub fn run(ctx: &Ctx) {
     add("key generate", "bad arguments: unknown option", &["key", "generate", "-o", "OUT", "--env-pass", "--frob"], env_pw("gpw"), Stdin::Bytes(b"joe\n".to_vec()), vec![], None);
     add("key generate", "no password source at all (no tty)", &["key", "generate", "-o", "OUT"], vec![], Stdin::Bytes(b"joe\n".to_vec()), vec![], None);
 
+    // the output path itself varies: plain, long, multi-byte characters at every alignment, odd characters
+    let mut out_names: Vec<String> = vec!["OUT".into()];
+    for (pad, ch, n) in [(0usize, "\u{e9}", 40usize), (1, "\u{e9}", 40), (0, "\u{20ac}", 30), (1, "\u{20ac}", 30), (2, "\u{20ac}", 30), (0, "\u{1f511}", 20), (1, "\u{1f511}", 20), (2, "\u{1f511}", 20), (3, "\u{1f511}", 20)] {
+        out_names.push(format!("{}{}.bin", "a".repeat(pad), ch.repeat(n)));
+    }
+    out_names.push(format!("{}.decrypted", "long-ascii-name-".repeat(12)));
+    out_names.push("name with spaces and 'quotes' \"x\".out".into());
+    out_names.push("line\nbreak.out".into());
+    out_names.push(".hidden".into());
+    out_names.push("n".repeat(255));
+    out_names.push(format!("r\u{e9}sum\u{e9}-{}\u{2713}.bin", "x".repeat(29)));
+    let name_rounds = ctx.tier.pick(4, out_names.len());
     let wd = WorkDir::new("c13");
-    let total = cases.len() * 3;
+    let per_round = cases.len() * 3;
+    let total = per_round * name_rounds;
     ctx.note("matrix", json!({"cases": cases.len(), "prior_states": ["absent", "present with short known content", "present with 400 kB of known content"], "executions": total}));
     let wdp = &wd;
-    par_for(total, crate::util::ncpu(), |j| {
+    par_for(total, crate::util::ncpu(), |jfull| {
+        let (round, j) = (jfull / per_round, jfull % per_round);
+        let out_name: &str = if round == 0 { "OUT" } else { &out_names[1 + (j + round * 7 + ctx.seed as usize) % (out_names.len() - 1)] };
         let case = &cases[j / 3];
         let present = j % 3 >= 1;
         // third prior state: content LONGER than anything the command could write (a stale tail would show)
         let long_prior: Vec<u8> = if j % 3 == 2 { (0..400_000u32).map(|i| (i % 251) as u8).collect() } else { PRIOR.to_vec() };
-        let dir = wdp.path.join(format!("c{}", j));
+        let dir = wdp.path.join(format!("c{}", jfull));
         std::fs::create_dir_all(&dir).unwrap();
         for (name, bytes) in &case.files {
             std::fs::write(dir.join(name), bytes).unwrap();
         }
-        let out = dir.join("OUT");
+        let out = dir.join(out_name);
         // "input == output" needs the path to exist as the input: prior content is the input itself
         let uses_out_as_input = case.cause.contains("input == output");
         if present || uses_out_as_input {
@@ -181,7 +196,7 @@ pub fn run(ctx: &Ctx) {
         }
         let before = std::fs::metadata(&out).ok().map(|m| (m.ino(), m.len()));
         let before_bytes = std::fs::read(&out).ok();
-        let a: Vec<&str> = case.args.iter().map(|x| x.as_str()).collect();
+        let a: Vec<&str> = case.args.iter().map(|x| if x == "OUT" { out_name } else { x.as_str() }).collect();
         let mut cmd = Cmd::new(&dir, &a).stdin(case.stdin.clone());
         for (k, v) in &case.env {
             cmd = cmd.env(k, v);
@@ -206,7 +221,10 @@ pub fn run(ctx: &Ctx) {
                 ctx.violation(&format!("{}:output-is-not-exactly-the-authenticated-prefix", sigbase), detail());
             } else {
                 ctx.seen("later-chunk failure: output holds exactly the authenticated prefix, exit 1");
-                ctx.distinct(&format!("{}|{}|{}", case.command, case.cause, prior_state));
+                ctx.distinct(&format!("{}|{}|{}|{}", case.command, case.cause, prior_state, out_name));
+                if out_name != "OUT" {
+                    ctx.seen("later-chunk failure onto an unusual output name");
+                }
             }
         } else if before_bytes.is_none() && after_bytes.is_some() {
             ctx.violation(&format!("{}:output-file-created-by-a-failed-command", sigbase), detail());
@@ -216,9 +234,9 @@ pub fn run(ctx: &Ctx) {
             ctx.violation(&format!("{}:existing-output-file-replaced-by-a-failed-command", sigbase), detail());
         } else {
             ctx.seen(&format!("{}: failed before any authenticated output, path untouched ({})", case.command, prior_state));
-            ctx.distinct(&format!("{}|{}|{}", case.command, case.cause, prior_state));
+            ctx.distinct(&format!("{}|{}|{}|{}", case.command, case.cause, prior_state, out_name));
         }
-        if j % 29 == 0 {
+        if jfull % 29 == 0 {
             ctx.sample("failed command", 3, || detail());
         }
         let _ = std::fs::remove_dir_all(&dir);
@@ -281,4 +299,5 @@ pub fn run(ctx: &Ctx) {
     ctx.require("password decrypt: failed before", 14);
     ctx.require("key generate: failed before", 8);
     ctx.require("later-chunk failure", 8);
+    ctx.require("later-chunk failure onto an unusual output name", 8);
 }
